@@ -8,6 +8,8 @@ import PdshVerif.Opt.WcollAssemble
 import PdshVerif.Opt.WcollSplit
 import PdshVerif.Opt.WcollTargets
 import PdshVerif.Opt.WcollFd
+import PdshVerif.Opt.WcollBytes
+import PdshVerif.Opt.WcollLookup
 import PdshVerif.Opt.Settings
 import PdshVerif.Dsh.Exit
 
@@ -194,7 +196,7 @@ bytes of a longer line are handed to the parser on their own -/
 theorem fgets_splits (size : Nat) (a b : Str) (ha : '\n' ∉ a) (hne : a ≠ []) (hlen : a.length = size - 1) :
     chunks (.fgets size) (a ++ b) = a :: chunks (.fgets size) b := by
   have := chunksGo_full (size - 1) a [] b ha hne (by simpa using hlen)
-  simpa [chunks, LineMode.cap] using this
+  simpa [chunks, LineMode.cap, LineMode.glues] using this
 
 /-- D12 witness, end to end (8-byte buffer for readability): the name `node0454` straddling the
 buffer boundary reaches the parser as `n1,node` and `0454`; the repaired reader keeps it whole -/
@@ -392,6 +394,80 @@ example : listSplit [':'] (dirname "/abs/d/A".toList) = [WcollSpec.dirOf "/abs/d
 
 example : LineOK "d".toList "#include \tB ".toList := ⟨by decide, by decide, by decide⟩
 example : LineOK "d".toList " n[1-3] # comment".toList := ⟨by decide, by decide, by decide⟩
+
+/-! ## byte level: `fgets` pieces of any size, glued, are the whole lines -/
+
+/-- THE REPAIRED READER AS WRITTEN (`LineMode.glued size`: `fgets (buf, size, fp)` pieces appended with
+`xstrcat` until a piece holds a newline, the rest at EOF handed over as a last line) calls
+`wcoll_ctx_read_line` with exactly the whole lines of the stream — for EVERY content (lines of any length, with
+or without a final newline, empty lines, the empty stream; NUL bytes are outside the model) and EVERY buffer
+size -/
+theorem glued_pieces_whole (size : Nat) (s : Str) : chunks (.glued size) s = chunks .whole s :=
+  glued_eq_whole size s
+
+/-- ... so no host name is ever split or truncated: every line, whatever its length, reaches the parser whole -/
+theorem whole_lines_bytes (size : Nat) (ls : List Str) (last : Str) (h : ∀ l ∈ ls, '\n' ∉ l) (hl : '\n' ∉ last) :
+    chunks (.glued size) (joinLines ls last) = ls.map (· ++ ['\n']) ++ (if last.isEmpty then [] else [last]) := by
+  rw [glued_pieces_whole]; exact whole_lines ls last h hl
+
+/-- ... and the whole option processing of the byte-level reader is that of the line-level reader: every theorem
+of this file stated for a `mode` holds of `repairedReader` (= `.glued LINEBUFSIZE`, LINEBUFSIZE regenerated from
+/repo) with the length hypotheses vacuous (`(.glued size).cap = none`), and the compiled model the real pdsh is
+compared with executes `.glued` -/
+theorem byte_reader_is_line_reader (size : Nat) (fs : FS) (stdin : Str) (opts : List Opt) (env : Option Str) :
+    assembleOpts (.glued size) fs stdin opts env = assembleOpts .whole fs stdin opts env :=
+  assembleOpts_glued size fs stdin opts env
+
+/-- the same name straddling the boundary of an 8-byte buffer, a line of exactly one buffer followed by another
+line, and an unterminated last line of exactly one buffer: all whole (cf. `fgets_splits_witness`) -/
+example : (readStream (.glued 8) [] [".".toList] "n1,node0454\n".toList).exprs = ["n1,node0454".toList] ∧
+    (readStream (.glued 8) [] [".".toList] "abcdef\nnext\n".toList).exprs = ["abcdef".toList, "next".toList] ∧
+    (readStream (.glued 8) [] [".".toList] "x\nabcdefg".toList).exprs = ["x".toList, "abcdefg".toList] := by decide
+
+/-- END TO END FROM BYTES: `target_list_end_to_end` below is stated for every `mode`; its domain predicate
+mentions the mode only through `mode.cap`, which is `none` for the byte-level reader — the instance for the
+reader as repaired needs no length condition on any file -/
+example : repairedReader.cap = none := rfl
+
+/-! ## where included files are looked up -/
+
+/-- THE DIRECTORY OF THE FILE NAMED ON THE COMMAND LINE, AT EVERY DEPTH.  Every file the reader opens through
+`#include` lines — directly or through any chain of included files — is either named explicitly (absolute,
+`./…`, `../…`: used as written, relative to the current directory) or is the readable file `D/NAME` with
+`D` = the directory of the command-line file and NAME the name as written: never a file found relative to the
+INCLUDING file's directory, never one found in the current directory. -/
+theorem nested_includes_in_command_line_directory (mode : LineMode) (fs : FS) (stdin file : Str)
+    (h1 : file ≠ ['-']) (hp : PlainPath file) (hc : ':' ∉ WcollSpec.dirOf file) :
+    ∀ x ∈ (readWcoll mode fs stdin file).1.opened, InDirOrExplicit fs (WcollSpec.dirOf file) x := by
+  unfold readWcoll
+  rw [if_neg h1, search_path_of_plain file hp hc]
+  split
+  · intro x hx; simp at hx
+  · split
+    · exact readStream_opened mode fs _ _ (fun f fq h => resolve_inDir fs _ f fq h) _
+    · intro x hx; simp at hx
+
+/-- for standard input (`-`, `^-`, WCOLL=-) the directory is `.` -/
+theorem stdin_includes_in_current_directory (mode : LineMode) (fs : FS) (stdin : Str) :
+    ∀ x ∈ (readWcoll mode fs stdin ['-']).1.opened, InDirOrExplicit fs ['.'] x := by
+  have : listSplit [':'] ['.'] = [['.']] := by decide
+  simp only [readWcoll, if_true, this]
+  exact readStream_opened mode fs _ _ (fun f fq h => resolve_inDir fs _ f fq h) _
+
+/-- pinned on the real pdsh by checks/c10.py (`nested-lookup:*`): `t/A` includes `s/B`; `t/s/B` includes `C` and
+`s/D`; a file `C` exists in `t` (right), next to the including file in `t/s` (decoy) and in the current
+directory (decoy); `s/D` exists as `t/s/D` (right) and `t/s/s/D` (decoy) -/
+example :
+    let fs : FS := [⟨"t/A".toList, true, "a1\n#include s/B\na2\n".toList⟩,
+      ⟨"t/s/B".toList, true, "b1\n#include C\n#include s/D\nb2\n".toList⟩,
+      ⟨"t/C".toList, true, "c-right\n".toList⟩, ⟨"t/s/C".toList, true, "c-decoy\n".toList⟩,
+      ⟨"C".toList, true, "c-decoy-cwd\n".toList⟩, ⟨"./C".toList, true, "c-decoy-cwd\n".toList⟩,
+      ⟨"t/s/D".toList, true, "d-right\n#include C\n".toList⟩, ⟨"t/s/s/D".toList, true, "d-decoy\n".toList⟩]
+    (readWcoll repairedReader fs [] "t/A".toList).1.exprs =
+        ["a1", "b1", "c-right", "d-right", "b2", "a2"].map String.toList ∧
+      (readWcoll repairedReader fs [] "t/A".toList).1.nwarn = 1 ∧
+      (WcollSpec.fileHosts fs "t/A".toList).exprs = ["a1", "b1", "c-right", "d-right", "b2", "a2"].map String.toList := by
+  decide
 
 /-! ## descriptors: what the reader holds open (ghost `Fd` threaded through the reader, Opt/WcollFd.lean) -/
 
